@@ -204,7 +204,31 @@ func (c *rconn) build(r reply, req []byte, n int) []byte {
 	ia := &dhcpv6.OptIANA{T1: life(0), T2: life(1)}
 	copy(ia.IaId[:], mac[2:6])
 	ia.Options.Options = dhcpv6.Options{&dhcpv6.OptIAAddress{IPv6Addr: net.ParseIP(fmt.Sprintf("2001:db8::%d:%d", r.A, n)), PreferredLifetime: life(2), ValidLifetime: life(3)}}
+	// what servers put into an identity association: several addresses, a status code that says Success (RFC 8415 21.13),
+	// options inside the address; and next to it: a second IA_NA, a prefix delegation with several prefixes
+	switch (n + 2*r.A) % 5 {
+	case 1:
+		ia.Options.Options = append(ia.Options.Options, &dhcpv6.OptIAAddress{IPv6Addr: net.ParseIP(fmt.Sprintf("2001:db8:2::%d:%d", r.A, n)), PreferredLifetime: life(1), ValidLifetime: life(2)})
+	case 2:
+		ia.Options.Options = append(ia.Options.Options, &dhcpv6.OptStatusCode{StatusCode: 0, StatusMessage: "all addresses granted"})
+	case 3:
+		ia.Options.Options = append(dhcpv6.Options{&dhcpv6.OptStatusCode{StatusCode: 0, StatusMessage: ""}}, ia.Options.Options...)
+		ia.Options.Options = append(ia.Options.Options, &dhcpv6.OptIAAddress{IPv6Addr: net.ParseIP(fmt.Sprintf("2001:db8:3::%d", n)), PreferredLifetime: life(0), ValidLifetime: life(1)})
+	}
 	m.AddOption(ia)
+	switch (n + r.A) % 4 {
+	case 1:
+		ia2 := &dhcpv6.OptIANA{T1: life(2), T2: life(3), IaId: [4]byte{9, 9, 9, byte(n)}}
+		ia2.Options.Options = dhcpv6.Options{&dhcpv6.OptIAAddress{IPv6Addr: net.ParseIP(fmt.Sprintf("2001:db8:9::%d", n)), PreferredLifetime: life(2), ValidLifetime: life(3)}}
+		m.AddOption(ia2)
+	case 2:
+		pd := &dhcpv6.OptIAPD{T1: life(1), T2: life(2), IaId: [4]byte{7, 7, 7, byte(n)}}
+		for k := 0; k < 1+n%2; k++ {
+			pd.Options.Options = append(pd.Options.Options, &dhcpv6.OptIAPrefix{PreferredLifetime: life(k), ValidLifetime: life(k + 1),
+				Prefix: &net.IPNet{IP: net.ParseIP(fmt.Sprintf("2001:db8:%x::", 0x100+n+k)), Mask: net.CIDRMask(56, 128)}})
+		}
+		m.AddOption(pd)
+	}
 	m.AddOption(&dhcpv6.OptionGeneric{OptionCode: 65001, OptionData: []byte{byte(n)}})
 	if !r.Ok {
 		if n%2 == 0 {
